@@ -18,6 +18,7 @@ The framework runs the target with LOG_LEVEL=CRITICAL; while a sink is captured 
 its handlers are replaced by a collecting handler.
 """
 
+import ast
 import logging
 import sys
 import threading
@@ -325,7 +326,7 @@ def _regex_sig(case, leaf):
         return 'C15/decomposed-uri-keeps-credentials'
     if case['user'] == '':
         return 'C15/regex-misses-empty-user'
-    if case['tail'] == '' and ',' in leaf and ', ' not in leaf:
+    if ',' in leaf and ', ' not in leaf and any(leaf.count(h + ',') for h in (HOST1, HOST2)):
         return 'C15/regex-host-swallows-next-uri'
 
     return f'C15/regex-misses-{INSNAME[case["ins"]]}'
@@ -443,7 +444,9 @@ def judge(case, res):
     t     = _target()
     out   = []
     sinks = res['sinks']
-    cfg   = res['config']
+
+    if res['status'].startswith('not-normalisable'):  # this placement has no normalised form: nothing was run
+        return out
 
     def add(sig, text):
         if all(s != sig for s, _ in out):
@@ -462,26 +465,34 @@ def judge(case, res):
 
                 continue
 
-            sigs = []
+            own = [make_uri(case['scheme'], case['user'], case['ins'], case['tail'], h) for h in (HOST1, HOST2)]
 
             if sink == 'construct-log' and '(config=' in text:
-                for path, leaf, kinds in _leaves(cfg):
+                sigs = []
+
+                try:  # the line is Cls(config=<repr of nested dicts / lists / tuples of literals>)
+                    logged = ast.literal_eval(text[text.index('(config=') + 8 : text.rindex(')')])
+                except Exception:
+                    logged = None
+
+                # Which strings does the logging walk of Filter.__init__ reach?  Those below FilterConfig / list / tuple only.
+                # The top level is a FilterConfig unless the filter rejected a configuration that was passed as a plain dict.
+                top_walked = not (res['status'].startswith('rejected') and case['mode'] == 'raw-dict')
+
+                for path, leaf, kinds in _leaves(logged):
                     if not _has_marker(leaf):
                         continue
 
-                    if _has_marker(t.hide(leaf)):
-                        sigs.append(_regex_sig(case, leaf))
-                    elif any(issubclass(k, dict) and not issubclass(k, t.FilterConfig) for k in kinds):
-                        sigs.append('C15/config-log-nested-dict-unmasked')  # the logging walk does not enter plain dicts / adict records
+                    if top_walked and not any(issubclass(k, dict) for k in kinds[1:]):
+                        sigs.append(_regex_sig(case, leaf))  # the mask was applied to this string and does not cover it
                     else:
-                        sigs.append('C15/config-log-other')
+                        sigs.append('C15/config-log-dict-not-walked')
 
                 for sig in sigs or ['C15/config-log-other']:
                     add(sig, f'the start-up log line shows the password: {shown}')
 
             else:
-                uris = [leaf for _, leaf, _ in _leaves(res['raw']) if _has_marker(leaf)]
-                sig  = next((_regex_sig(case, u) for u in uris if _has_marker(t.hide(u))), f'C15/{sink}-unmasked')
+                sig = next((_regex_sig(case, u) for u in own if u in text and _has_marker(t.hide(u))), f'C15/{sink}-unmasked')
 
                 add(sig, f'{sink} shows the password: {shown}')
 
@@ -531,7 +542,7 @@ def _groups():
 
 
 def _case_key(c):
-    return (len(c['user']) > 1, c['ins'] != '', c['tail'] == '', c['mode'] != 'raw-dict', list(FILTERS).index(c['filter']),
+    return (c['user'] != 'u', c['ins'] != '', TAILS.index(c['tail']), c['mode'] != 'raw-dict', list(FILTERS).index(c['filter']),
         c['field'], c['placement'], SCHEMES.index(c['scheme']), c['user'], INS.index(c['ins']), c['mode'])
 
 
